@@ -196,6 +196,35 @@ class Check:
             raise Infra('vacuous model %s/%s: actions never taken: %s' % (module, cfg, r.untaken))
         return r
 
+    # ---------------------------------------------------------------- symbolic model checking (Apalache)
+    def apalache(self, module, cfg, inv, length=0, timeout=1800, must_hold=True):
+        """Check invariant `inv` of SPEC/<module>.tla with Apalache (SMT) up to computation length `length`
+        (0: the invariant on every initial state, i.e. a universally quantified lemma over the symbolic state)."""
+        out = os.path.join(self.work, 'apalache_%s_%s' % (module, inv))
+        shutil.rmtree(out, ignore_errors=True)
+        t0 = time.time()
+        try:
+            p = sh(['apalache-mc', 'check', '--config=%s' % cfg, '--length=%d' % length, '--inv=%s' % inv,
+                    '--out-dir=%s' % out, '--run-dir=%s' % os.path.join(out, 'run'), module + '.tla'], timeout=timeout, cwd=SPEC)
+        except subprocess.TimeoutExpired:
+            raise Infra('Apalache timed out on %s/%s' % (module, inv))
+        wall = time.time() - t0
+        text = p.stdout
+        ok = 'The outcome is: NoError' in text
+        bad = 'The outcome is: Error' in text and 'violated' in text
+        self.details.setdefault('apalache_runs', []).append({'module': module, 'cfg': cfg, 'invariant': inv, 'length': length,
+                                                             'outcome': 'NoError' if ok else 'Error' if bad else 'failed',
+                                                             'wall_s': round(wall, 1)})
+        if bad:
+            if must_hold:
+                keep = os.path.join(self.replay_dir, 'apalache_%s_%s.out' % (module, inv))
+                with open(keep, 'w') as f:
+                    f.write(text)
+                self.violation('model:%s:%s' % (module, inv), keep, 'Apalache: %s violated in %s (counterexample named in the file)' % (inv, module))
+        elif not ok:
+            raise Infra('Apalache failed on %s/%s (rc=%d):\n%s' % (module, inv, p.returncode, text[-3000:]))
+        return ok
+
     # ---------------------------------------------------------------- trace validation
     def validate_traces(self, module, cfg, files, timeout=900, par=NCPU, deque=False, env=None,
                         sig_prefix='trace', jvm=None):
